@@ -773,7 +773,11 @@ class FelicaLiteS(FelicaLite):
             attributes = super(FelicaLiteS.NDEF, self)._read_attribute_data()
             if attributes is not None and self._tag._authenticated:
                 # when authenticated and user data is writeable
-                mc = self._tag.read_without_mac(0x88)
+                try:
+                    mc = self._tag.read_without_mac(0x88)
+                except tt3.Type3TagCommandError as error:
+                    self._read_attribute_error = error
+                    return None
                 rw_bits = unpack("<H", mc[0:2])[0]
                 self._writeable = bool(rw_bits & 0x3ff == 0x3ff)
             return attributes
@@ -847,7 +851,8 @@ class FelicaLiteS(FelicaLite):
                     return False
 
             # if password is empty use factory key of 16 zero bytes
-            key = password[0:16].encode("ascii") if password else b'\0' * 16
+            key = password[0:16] if password else b'\0' * 16
+            key = key.encode("ascii") if isinstance(key, str) else bytes(key)
 
             log.debug("protect with key %s", hexlify(key).decode())
             ckv = self.read_without_mac(0x86)
